@@ -962,6 +962,13 @@ func parseAssign(s string) (AssignSpec, error) {
 	case strings.HasPrefix(s, "heap "):
 		as.Kind = "heap"
 		as.Heap = strings.TrimSpace(s[5:])
+	case strings.HasPrefix(s, "target(") && strings.HasSuffix(s, ")"):
+		as.Kind = "target"
+		e, err := parseSpecExpr(s[7 : len(s)-1])
+		if err != nil {
+			return as, err
+		}
+		as.E = e
 	case strings.HasPrefix(s, "elems(") && strings.HasSuffix(s, ")"):
 		as.Kind = "elems"
 		e, err := parseSpecExpr(s[6 : len(s)-1])
